@@ -107,7 +107,10 @@ def evaluate(case):
     isoB = next(_fresh)
     isoC = next(_fresh)
     texts = lambda iso: [j["text"].replace("{u}", str(iso)) for j in jobs]  # noqa
-    before = [(None if "ring_n" in j else _alone(j["kind"], t, j.get("flags", {}))) for j, t in zip(jobs, texts(isoA))]
+    # no_before: the very first time this process sees these inputs is inside the interleaving (memo caches keyed by
+    # the input or by something derived from it are then filled - and possibly still being worked on - concurrently)
+    no_before = bool(case.get("no_before"))
+    before = [(None if ("ring_n" in j or no_before) else _alone(j["kind"], t, j.get("flags", {}))) for j, t in zip(jobs, texts(isoA))]
     s = sched.Sched([_job(j["kind"], t, j.get("flags", {})) for j, t in zip(jobs, texts(isoB))], [tuple(x) for x in case["schedule"]])
     conc = s.run()
     after = [_alone(j["kind"], t, j.get("flags", {})) for j, t in zip(jobs, texts(isoC))]
@@ -123,9 +126,9 @@ def evaluate(case):
             if fail:
                 break
             continue
-        b = _norm(before[k], isoA, "U")
-        c = _norm(conc[k], isoB, "U")
         a = _norm(after[k], isoC, "U")
+        b = a if no_before else _norm(before[k], isoA, "U")
+        c = _norm(conc[k], isoB, "U")
         if b != a:
             fail = Fail("serial_runs_disagree", job=j, before=str(b)[:300], after=str(a)[:300])
             break
@@ -145,6 +148,8 @@ def evaluate(case):
     classes = ["jobs=%d" % len(jobs)]
     if ring_jobs:
         classes.append("fresh_ring_sizes_inside_interleaving")
+    if no_before:
+        classes.append("first_sight_of_input_inside_interleaving")
     if any("{u}" in j["text"] for j in jobs):
         classes.append("fresh_symbol_inside_interleaving")
     if any(j["kind"] == "enc" and "ring_n" not in j and ("c" in j["text"] or "n" in j["text"]) for j in jobs):
@@ -214,7 +219,7 @@ def _cold(case):
     import subprocess
     from vf.core import HERE, REPO, HarnessError
     env = dict(os.environ, PYTHONPATH="%s:%s" % (REPO, HERE), PYTHONHASHSEED="0")
-    q = dict(jobs=case["jobs"], threads=case["threads"], rounds=case["rounds"])
+    q = dict(jobs=case["jobs"], threads=case["threads"], rounds=case["rounds"], rotate=case.get("rotate", True))
     p = subprocess.run([sys.executable, "-m", "vf.coldstress"], input=json.dumps(q).encode(), stdout=subprocess.PIPE,
                        stderr=subprocess.PIPE, env=env, timeout=600)
     if p.returncode != 0:
@@ -233,8 +238,10 @@ def _cold(case):
         # concurrent results: compare with a serial run in this (other) process as well
         import json as _json
         for k, j in enumerate(case["jobs"]):
-            mine = _alone(j["kind"], j["text"], j.get("flags", {}))
+            mine = _alone(j["kind"], j["text"].replace("{v}", "1000"), j.get("flags", {}))
             mine = ["exc", mine[1]] if mine[0] == "exc" else ["ok", _json.loads(_json.dumps(mine[1]))]
+            if "{v}" in j["text"]:
+                mine = _json.loads(_json.dumps(mine).replace("1000", "V"))
             theirs = out["concurrent_distinct"].get(str(k), []) + [out["serial_after"][k]]
             bad = [t for t in theirs if t != mine]
             if bad:
@@ -271,8 +278,22 @@ def gen_jobs(ch):
     return jobs
 
 
+def gen_fresh_aromatic(ch):
+    """a random fused all-carbon aromatic system: most likely a topology this process has never kekulized"""
+    from vf import gen_arom as GA
+    adj = GA.fused_system(ch, max_rings=4)
+    wr = GM.write(GA.build(adj, {x: "c" for x in adj}), ch, variants=False)
+    return wr["smiles"] if wr else "c1ccc2ccccc2c1"
+
+
 def gen_case(ch):
     jobs = gen_jobs(ch)
+    first_sight = ch.bool(15)
+    if first_sight:
+        smi = gen_fresh_aromatic(ch)
+        jobs[0] = dict(kind="enc", text=smi, flags=dict(strict=False))
+        jobs[1] = dict(jobs[0])
+        jobs = [j for j in jobs if j["kind"] != "enc_ring_fresh"]
     n = len(jobs)
     segs = []
     style = ch.pick(["fine", "coarse", "mixed", "pingpong"])
@@ -288,7 +309,10 @@ def gen_case(ch):
         else:
             q = ch.weighted([(5, ch.int(1, 10)), (3, ch.int(10, 200)), (1, ch.int(200, 3000))])
         segs.append([ch.below(n), q])
-    return dict(jobs=jobs, schedule=segs)
+    case = dict(jobs=jobs, schedule=segs)
+    if first_sight:
+        case["no_before"] = True
+    return case
 
 
 COLD_DEC = ["[C][=C][Branch1][C][O][C][Ring1][Ring2]", "[C][C][C][C][=Ring1][Ring2]", "[C][Branch2][Ring1][C]" + "[C]" * 18 + "[F]",
@@ -312,7 +336,12 @@ def gen_cold(ch):
             jobs.append(dict(kind="enc", text="S(" + "C" * n + ")(F)Cl", flags={}))
         else:
             jobs.append(dict(kind="enc", text=ch.pick(ENC_POOL).replace("{u}", "13"), flags=dict(strict=ch.bool(70))))
-    return dict(kind="cold", jobs=jobs, threads=ch.pick([4, 8, 8]), rounds=ch.pick([1, 1, 2]))
+    if ch.bool(40):
+        # a stream of ever new bracket atoms (per-call isotope): bounded symbol caches keep evicting
+        jobs.append(dict(kind=ch.pick(["enc", "dec"]), text="", flags={}))
+        jobs[-1]["text"] = "[{v}CH3]C(=O)[{v}O-]" if jobs[-1]["kind"] == "enc" else "[{v}C][=C][{v}OH1]"
+        return dict(kind="cold", jobs=jobs, threads=ch.pick([4, 8]), rounds=ch.pick([40, 80]), rotate=ch.bool(50))
+    return dict(kind="cold", jobs=jobs, threads=ch.pick([4, 8, 8]), rounds=ch.pick([1, 1, 2]), rotate=ch.bool(50))
 
 
 def gen_stress(ch):
